@@ -1,0 +1,3 @@
+// Package verifapi re-exports internal packages for external verification
+// harnesses. It is empty unless built with the "verif" build tag.
+package verifapi
